@@ -24,13 +24,20 @@ import (
 	"os"
 	"path"
 	"path/filepath"
+	"io"
 	"strconv"
+	"strings"
 	"sync"
 	"testing"
 	"time"
 
 	eth2p0 "github.com/attestantio/go-eth2-client/spec/phase0"
 	k1 "github.com/decred/dcrd/dcrec/secp256k1/v4"
+	"github.com/libp2p/go-libp2p/core/host"
+	"github.com/libp2p/go-libp2p/core/network"
+	"github.com/libp2p/go-libp2p/core/peer"
+	"github.com/libp2p/go-libp2p/core/protocol"
+	"github.com/libp2p/go-libp2p/p2p/net/swarm"
 
 	"github.com/obolnetwork/charon/app/k1util"
 	"github.com/obolnetwork/charon/app/log"
@@ -62,9 +69,64 @@ type c11rCeremony struct {
 	Add        int             `json:"add,omitempty"`
 	Seed       int             `json:"seed"`
 	FullRun    bool            `json:"full_run"`
+	Drop       *c11rDrop       `json:"drop,omitempty"` // lossy transport: node To loses the streams of kind Kind coming from node From
+	Dropped    int             `json:"streams_dropped,omitempty"`
+	NodeErrs   []string        `json:"node_errors,omitempty"`
 	Seconds    float64         `json:"seconds"`
 	Err        string          `json:"err,omitempty"`
 	Validators []c11rValidator `json:"validators"`
+}
+
+type c11rDrop struct {
+	Kind string `json:"kind"` // deal | resp | just (pedersen bundles)
+	From int    `json:"from"`
+	To   int    `json:"to"`
+}
+
+type c11rStream struct {
+	network.Stream
+	drop func(p protocol.ID) bool
+	dead bool
+}
+
+func (s *c11rStream) SetProtocol(p protocol.ID) error {
+	if s.drop(p) {
+		s.dead = true
+	}
+	return s.Stream.SetProtocol(p)
+}
+
+func (s *c11rStream) Read(b []byte) (int, error) {
+	if s.dead {
+		_ = s.Stream.Reset()
+		return 0, io.ErrUnexpectedEOF
+	}
+	return s.Stream.Read(b)
+}
+
+// c11rLossy makes host h lose every stream of the given pedersen bundle kind that comes from peer `from`.
+func c11rLossy(h host.Host, from peer.ID, kind string, count *int, mu *sync.Mutex) {
+	sw, ok := h.Network().(*swarm.Swarm)
+	if !ok {
+		panic(fmt.Sprintf("host network is %T, not a swarm", h.Network()))
+	}
+	suffix := map[string]string{"deal": "deal_bundle", "resp": "resp_bundle", "just": "just_bundle"}[kind]
+	orig := sw.StreamHandler()
+	sw.SetStreamHandler(func(s network.Stream) {
+		if s.Conn().RemotePeer() != from {
+			orig(s)
+			return
+		}
+		orig(&c11rStream{Stream: s, drop: func(p protocol.ID) bool {
+			if strings.HasSuffix(string(p), suffix) {
+				mu.Lock()
+				*count++
+				mu.Unlock()
+				return true
+			}
+			return false
+		}})
+	})
 }
 
 type c11rViolation struct {
@@ -83,9 +145,17 @@ type c11rOut struct {
 // c11rRun is testDKG of dkg_test.go without keymanager/publish and returning the error instead of failing the test.
 func c11rRun(t *testing.T, def cluster.Definition, dir string, p2pKeys []*k1.PrivateKey, addConfig []dkg.AppendConfig) error {
 	t.Helper()
+	_, err := c11rRunLossy(t, def, dir, p2pKeys, addConfig, nil)
+	return err
+}
+
+// c11rRunLossy: with c.Drop set, node Drop.To loses the bundles of kind Drop.Kind sent by node Drop.From. Returns every node's error.
+func c11rRunLossy(t *testing.T, def cluster.Definition, dir string, p2pKeys []*k1.PrivateKey, addConfig []dkg.AppendConfig, c *c11rCeremony) ([]error, error) {
+	t.Helper()
 	if err := def.VerifySignatures(nil); err != nil {
-		return fmt.Errorf("definition signatures: %w", err)
+		return nil, fmt.Errorf("definition signatures: %w", err)
 	}
+	var dropMu sync.Mutex
 	ctx, cancel := context.WithTimeout(context.Background(), 120*time.Second)
 	defer cancel()
 	relayAddr := relay.StartRelay(ctx, t)
@@ -116,17 +186,24 @@ func c11rRun(t *testing.T, def cluster.Definition, dir string, p2pKeys []*k1.Pri
 			conf.AppendConfig = &addConfig[i]
 		}
 		if err := os.MkdirAll(conf.DataDir, 0o755); err != nil {
-			return err
+			return nil, err
 		}
 		if err := k1util.Save(p2pKeys[i], p2p.KeyPath(conf.DataDir)); err != nil {
-			return err
+			return nil, err
+		}
+		if c != nil && c.Drop != nil && c.Drop.To == i {
+			from, err := p2p.PeerIDFromKey(p2pKeys[c.Drop.From].PubKey())
+			if err != nil {
+				return nil, err
+			}
+			conf.TestConfig.P2PNodeCallback = func(h host.Host) { c11rLossy(h, from, c.Drop.Kind, &c.Dropped, &dropMu) }
 		}
 		wg.Add(1)
 		go func(i int) {
 			defer wg.Done()
 			errs[i] = dkg.Run(peerCtx(ctx, i), conf)
-			if errs[i] != nil {
-				cancel()
+			if errs[i] != nil && (c == nil || c.Drop == nil) {
+				cancel() // (with a lossy link every node is left to reach its own verdict)
 			}
 		}(i)
 		if i == 0 {
@@ -134,17 +211,19 @@ func c11rRun(t *testing.T, def cluster.Definition, dir string, p2pKeys []*k1.Pri
 		}
 	}
 	wg.Wait()
+	dropMu.Lock()
+	defer dropMu.Unlock()
 	for i, err := range errs {
 		if err != nil && err.Error() != context.Canceled.Error() {
-			return fmt.Errorf("node %d: %w", i, err)
+			return errs, fmt.Errorf("node %d: %w", i, err)
 		}
 	}
 	for i, err := range errs {
 		if err != nil {
-			return fmt.Errorf("node %d: %w", i, err)
+			return errs, fmt.Errorf("node %d: %w", i, err)
 		}
 	}
-	return nil
+	return errs, nil
 }
 
 func c11rSubsets(n, size int) [][]int {
@@ -345,6 +424,24 @@ func c11rScenario(t *testing.T, c *c11rCeremony, checks map[string]int) (string,
 		func(d *cluster.Definition) { d.TargetGasLimit = 30000000 },
 	)
 	srcDir := t.TempDir()
+	if c.Flow == "lossy" {
+		errs, err := c11rRunLossy(t, lock.Definition, srcDir, keys, nil, c)
+		for i, e := range errs {
+			if e != nil {
+				c.NodeErrs = append(c.NodeErrs, fmt.Sprintf("node %d: %v", i, e))
+			}
+		}
+		if err != nil {
+			c.Err = "not a successful ceremony (outside the property): " + err.Error()
+			return "", ""
+		}
+		key, what := c11rArtefacts(t, c, srcDir, c.Vals, checks)
+		if key != "" {
+			key = "F-C11-QUAL:" + key // would be a genuine violation: the full ceremony succeeds everywhere with inconsistent artefacts
+			what = fmt.Sprintf("dkg.Run (pedersen) n=%d t=%d with a lossy link (the %s bundle of node %d to node %d is lost, %d streams dropped) returns nil on all %d nodes, but %s", c.N, c.T, c.Drop.Kind, c.Drop.From, c.Drop.To, c.Dropped, c.N, what)
+		}
+		return key, what
+	}
 	if err := c11rRun(t, lock.Definition, srcDir, keys, nil); err != nil {
 		return "dkg:honest-ceremony-fails", fmt.Sprintf("dkg.Run (%s) among %d honest nodes, t=%d, %d validators fails: %v", c.Algo, c.N, c.T, c.Vals, err)
 	}
@@ -417,7 +514,7 @@ func TestVerifC11Run(t *testing.T) {
 			t.Skip("not a dkg.Run replay")
 		}
 		r := wrap.Replay
-		todo = append(todo, c11rCeremony{Algo: r.Algo, Flow: r.Flow, N: r.N, T: r.T, Vals: r.Vals, Add: r.Add, Seed: r.Seed, FullRun: true})
+		todo = append(todo, c11rCeremony{Algo: r.Algo, Flow: r.Flow, N: r.N, T: r.T, Vals: r.Vals, Add: r.Add, Seed: r.Seed, FullRun: true, Drop: r.Drop})
 	} else if thorough {
 		todo = []c11rCeremony{
 			{Algo: "frost", Flow: "run", N: 3, T: 2, Vals: 2},
@@ -425,6 +522,8 @@ func TestVerifC11Run(t *testing.T) {
 			{Algo: "default", Flow: "append", N: 4, T: 3, Vals: 2, Add: 1},
 			{Algo: "pedersen", Flow: "append", N: 3, T: 2, Vals: 1, Add: 2},
 			{Algo: "frost", Flow: "run", N: 5, T: 2, Vals: 1},
+			{Algo: "pedersen", Flow: "lossy", N: 4, T: 3, Vals: 1, Drop: &c11rDrop{Kind: "deal", From: 2, To: 0}},
+			{Algo: "pedersen", Flow: "lossy", N: 4, T: 3, Vals: 1, Drop: &c11rDrop{Kind: "resp", From: 1, To: 3}},
 		}
 	} else {
 		// quick: one append scenario (= one plain ceremony, its artefacts checked, then the add-validators ceremony)
@@ -441,6 +540,10 @@ func TestVerifC11Run(t *testing.T) {
 		}
 		// ... plus one small plain ceremony of the other algorithm, so that both are run through dkg.Run every time
 		todo = []c11rCeremony{ap, {Algo: other, Flow: "run", N: 3, T: 2, Vals: 1}}
+		if os.Getenv("VERIF_C11_LOSSY") != "" || seed%3 == 0 {
+			// corpus: the minimised input of reading note N-C11-QUAL through the full ceremony (rotates in every third seed at quick)
+			todo = append(todo, c11rCeremony{Algo: "pedersen", Flow: "lossy", N: 4, T: 3, Vals: 1, Drop: &c11rDrop{Kind: "deal", From: 2, To: 0}})
+		}
 	}
 	for i := range todo {
 		c := &todo[i]
